@@ -166,6 +166,7 @@ structure Obs where
   stop : Bool
   nh : Nat
   now : Nat
+  pq : List Nat                            -- owners of the watchers in loop->pending_queue
   hs : List (Nat × Bool × Bool × Bool)     -- id, active, has_ref, is_closing
 deriving DecidableEq, Repr, Inhabited
 
@@ -552,7 +553,7 @@ def backendTimeoutS (s : State) : Int :=
 
 def obsOf (s : State) : Obs :=
   { alive := alive s, ah := s.c.ah, ar := s.ar, stop := s.stop,
-    nh := (s.c.fl.filter (fun e => !e.2.internal)).length, now := s.tm.time,
+    nh := (s.c.fl.filter (fun e => !e.2.internal)).length, now := s.tm.time, pq := s.pending,
     hs := (s.c.fl.filter (fun e => !e.2.internal)).map
             (fun e => (e.1, isActive (toHK e.2 0), hasRef (toHK e.2 0), isClosing (toHK e.2 0))) }
 
